@@ -406,6 +406,7 @@ class Interp:
         self.fresh_n = 0
         self.top_level = None
         self.visited = set()
+        self.record_aggs = set()
 
     # ---------------------------------------------------------------- Top
     def top(self, ty, sym):
@@ -691,6 +692,10 @@ class Interp:
                     return BOTTOM
                 if is_enum:
                     pl = {fn: o for fn, o in zip(fnames, ops)}
+                    if adt in self.record_aggs:
+                        self.sites.append(Site("enum-agg", frame["fn"], s.span, adt=adt, variant=variant,
+                                               payload=pl, state=st.copy(), chain=frame["chain"],
+                                               top=self.top_level))
                     return AEnum(s.ty, {variant: (pl, (dict(st.facts),))})
                 val = AStruct(s.ty, {fn: o for fn, o in zip(fnames, ops)})
                 if adt in self.inv or s.ty in self.inv:
@@ -698,7 +703,7 @@ class Interp:
                                            state=st.copy(), chain=frame["chain"],
                                            top=self.top_level))
                 return val
-            if a[0] == "tuple":
+            if a[0] in ("tuple", "array"):
                 return AStruct(s.ty, {str(i): o for i, o in enumerate(ops)})
             if a[0] == "closure":
                 return AClosure(a[1], ops)
@@ -908,6 +913,10 @@ class Interp:
                     if v is BOTTOM:
                         dead = True
                         break
+                    if isinstance(v, ATop) and s.ty in INT_RANGE:
+                        sym_ = self.site_sym(frame, s)
+                        self.kill_sym(st, sym_)
+                        v = self.top(s.ty, sym_)
                     self.write(st, body, s.place, v)
                 elif s.kind == "setdisc":
                     self.write(st, body, s.place, ATop(s.ty))
@@ -1170,9 +1179,12 @@ class Interp:
                 return self.fresh_top(st, dest_ty, sym)
             r = self.run_body(f.body, args, frame["chain"] + ((f.id, t.span.line, t.span.col),),
                               frame["depth"] + 1, f, st.facts)
+            if r is not None and sym is not None:
+                r = self.name_ints(st, r, sym)
             return r
         self.sites.append(Site("unmodelled", frame["fn"], t.span, callee=name,
-                               chain=frame["chain"], top=self.top_level, dest_ty=dest_ty))
+                               chain=frame["chain"], top=self.top_level, dest_ty=dest_ty,
+                               args=args, state=st.copy()))
         return self.fresh_top(st, dest_ty, sym)
 
     def fresh_top(self, st, ty, sym):
